@@ -41,7 +41,7 @@ ASSUMPTIONS = ["equivalence of a relative path is judged on node names (path ari
 def plan(tier, seed):
     depth = 2 if tier == "quick" else 3
     return {"shards": 16, "timeout": 1200 if tier == "quick" else 5400, "depth": depth, "n_random": 800 if tier == "quick" else 12000,
-            "floors": {"paths_judged": 20000, "layouts": 1000, "hook_evals": 20000, "distinct": 500, "negative_cases": 30},
+            "floors": {"suite_conversions_judged": 500, "paths_judged": 20000, "layouts": 1000, "hook_evals": 20000, "distinct": 500, "negative_cases": 30},
             "exhaustive": False}
 
 
